@@ -563,7 +563,7 @@ COLLS = {
                 note='PARTIAL: conservation proved for the modelled algorithms (now including into_iter, splice, map_in_place with a panicking closure, append, and the growth by a producer that may panic at any call: extend_from_slice_clone / extend_from_within_clone / extend(iterator) / resize_with / resize, the consuming map, dedup_by_key); extend with lying size hints / into_boxed_slice / partition are covered by the drop-count monitor and std Vec in lock-step only (extras probe); the allocation helpers and collections of zero-sized elements are covered by birth/drop-count probes (helpers probe, HP / HZ lines), the two zero-sized branches that were defective are modelled in both versions (pinned refuted, repaired proved)'),
     'C08': dict(x=['std::vec::Vec', 'contents differ', 'returned values differ', 'capacity:', 'capacity ', 'cap history', 'helpers: contents', 'helpers: std::vec::Vec panics', 'overwrote a neighbouring allocation', 'yielded', 'len() of the iterator', 'accounted', 'lost'],
                 note='list-function refinement proved for the modelled operations; capacity clauses proved for BumpVec / FixedBumpVec / MutBumpVec / MutBumpVecRev over the capacity model VecCap.v (capacity >= length in every reachable state, reserve / reserve_exact / with_capacity keep their promise, no allocator call and no move while the promise suffices, amortised doubling, a fixed vector never reallocates and fails exactly when full) and replayed from capacity histories; PARTIAL: zero-sized element types and unmodelled operations are checked against std::vec::Vec in lock-step only'),
-    'C16': dict(x=['split_off capacities', 'split_off part', 'changed the remaining part', 'changed the split-off part', 'parts:'],
+    'C16': dict(x=['split_off capacities', 'split_off part', 'changed the remaining part', 'changed the split-off part', 'parts:', 'flatten:'],
                 ops=['split_off', 'split_at', 'split_first', 'split_last', 'split_off_first', 'split_off_last', 'partition', 'merge'],
                 note='split_off (rotate in place), split_at, split_first/last (+ split_off_ twins), merge and partition (partition_in_place + split_at) proved against their specifications (Parts.v: windows of one buffer) and replayed from the trace; the buffer windows of split_off on a vector (SplitCap.v: the offset / length / capacity; they hold exactly the parts, tile the old buffer without overlap, capacities add up, the spare capacity stays with the window at the end) proved and compared with the implementation on every split_off case of BumpVec / FixedBumpVec (`win=` field of the trace); PARTIAL: into_flattened (flatten probe: std in lock-step, capacity = old capacity * N, zero-sized elements, birth / drop ledger), split_at_spare and the independence of the parts under follow-up operations are checked on the implementation only'),
 }
@@ -637,7 +637,7 @@ def colls_verdict(ctx, pid, res, conf):
         msg = xl.split('::', 1)[1].strip() if '::' in xl else xl
         if not any(k in msg for k in conf['x']):
             continue
-        if pid == 'C16' and 'split_off' not in xl and 'parts probe' not in xl and 'parts case' not in xl:
+        if pid == 'C16' and 'split_off' not in xl and 'parts probe' not in xl and 'parts case' not in xl and 'flatten:' not in xl:
             continue
         if pid != 'C16' and ('parts probe' in xl or 'parts case' in xl):
             continue
